@@ -1057,6 +1057,13 @@ func scenarios(r *vlib.Run) []scenario {
 		scenario{"corpus:deep-orphan-k-ring24", scDeepOrphanK, false, noOpt},
 		scenario{"corpus:deep-orphan-k-nomem", scDeepOrphanK, false, memOff},
 	)
+	// realclient.go: the same histories on a replica node made of gocoin's client program (client/main.go's own block entry
+	// and chain callbacks), which falls behind and catches up header-first. Listed last (streams above unchanged).
+	l = append(l,
+		scenario{"corpus:client-node-far-behind", scClientNode(144, 230), false, noOpt},
+		scenario{"corpus:client-node-behind", scClientNode(1, 150), false, noOpt},
+		scenario{"corpus:client-node-in-sync", scClientNode(1, 3), true, noOpt},
+	)
 	return l
 }
 
@@ -1105,6 +1112,7 @@ func main() {
 		"amounts stay far below 2^64 (no uint64 wrap in fee products); size-based limits of the rejected list are kept out of reach",
 		"transactions from trusted peers / the local wallet (Trusted: scripts are not run) carry valid scripts; corrupted signatures are only sent on the untrusted path",
 		"blocks handed to the chain are valid; the harness applies client/main.go's wiring (callbacks, BlockCommitInProgress, common.Last) itself; a bare undo is driven as client/usif/textui undo_block does",
+		"the client program's own wiring (client/main.go blockMined / blockUndone as chain callbacks, LocalAcceptBlock as block entry, LastKnownHeight from the best known header) is driven in the corpus:client-node-* histories on a replica node = gocoin's client built with a driver file through `go build -overlay`, run as a child process; its pool must equal the in-process pool after every operation and satisfy the predicate against its own UTXO db; host_init and the network threads are not driven (the driver hands the callbacks to NewChainExt and learns headers the way init.go / ProcessNewHeader do)",
 		"other threads of the node are represented by what they do under TxMutex at the points where the committing thread has released it: a listing (GetSortedMempoolRBF) + inspection right after a BlockMined / BlockUndone callback, SortingDisabled still set; true parallel execution is not driven (TxMutex serialises the pool)",
 		"a damaged mempool.dmp is a strict prefix of the file MempoolSave wrote (crash while writing in place), that file with its END marker / version / tip hash changed, a complete file of an earlier tip, or no file; bit flips INSIDE the records are not generated (the file has no checksum: such a file loads other transactions)",
 		"Go map-iteration order (batch of REPLACED records in the reject ring; ties of sort.Slice) is an input: the model adopts the observed order through ringorder / setorder, which are proved to preserve the invariants (resync_step_inv)",
@@ -1165,6 +1173,7 @@ func main() {
 }
 
 func finish(r *vlib.Run) {
+	cleanDrv()
 	profPrint()
 	os.Stdout = realOut
 	syscall.Dup2(int(realErr.Fd()), 2)
